@@ -1,10 +1,10 @@
-\* quick: every history of <= 4 statements over OpsTiny (14 statements) incl. the backward reading
+\* quick: every history of <= 3 statements over OpsTiny (14 statements) incl. the backward reading, default case mode
 CONSTANTS Codes <- MCCodes
  FileTabs <- MCFileTabs
  Ops <- OpsTiny
- MaxLen = 4
+ MaxLen = 3
  CheckBackward = TRUE
- CaseModes = {FALSE, TRUE}
+ CaseModes = {FALSE}
  Dev = {}
  DevSourceChecked = TRUE
 INIT Init
